@@ -503,6 +503,43 @@ func linearizable(c comp, hist []rec) (bool, int) {
 	return dfs(), replays
 }
 
+// classify names a non-linearizable history; the two known findings have their own, specific signatures.
+//
+//go:norace
+func classify(comp comp, hist []rec) string {
+	sig := "not-linearizable/" + comp.Name
+	without := func(ops ...int) []rec {
+		var rest []rec
+		for _, h := range hist {
+			skip := false
+			for _, o := range ops {
+				skip = skip || h.Op == o
+			}
+			if !skip {
+				rest = append(rest, h)
+			}
+		}
+		return rest
+	}
+	if comp.Name == "eventsbuffer" {
+		// is the lock-free reader the only thing that cannot be placed?
+		if rest := without(4, 5); len(rest) < len(hist) {
+			if ok, _ := linearizable(comp, rest); ok {
+				sig = "not-linearizable/eventsbuffer/lock-free-Total-or-IsBuffered-observes-a-push-in-progress"
+			}
+		}
+	}
+	if comp.Name == "syncedpool" {
+		// is the size estimate (a sum over the databases, taken without their locks) the only call that cannot be placed?
+		if rest := without(4); len(rest) < len(hist) {
+			if ok, _ := linearizable(comp, rest); ok {
+				sig = "not-linearizable/syncedpool/NotFlushedSizeEst-sums-the-databases-non-atomically"
+			}
+		}
+	}
+	return sig
+}
+
 func gen(cs []comp, quick bool) []program {
 	var progs []program
 	for ci, c := range cs {
@@ -696,7 +733,7 @@ func main() {
 		}
 		fmt.Println("log:", strings.Join(r.Log, " | "))
 		if ok, _ := linearizable(cs[rp.Program.Comp], lastHist); !ok {
-			c.Violation("not-linearizable/"+cs[rp.Program.Comp].Name, rp, "history is not linearizable")
+			c.Violation(classify(cs[rp.Program.Comp], lastHist), rp, "history is not linearizable")
 		}
 		c.Finish()
 	}
@@ -721,19 +758,7 @@ func main() {
 			ok, replays := linearizable(comp, lastHist)
 			c.Count("sequential_replays", int64(replays))
 			if !ok {
-				sig := "not-linearizable/" + comp.Name
-				if comp.Name == "eventsbuffer" {
-					// is the lock-free reader the only thing that cannot be placed?
-					var rest []rec
-					for _, h := range lastHist {
-						if h.Op != 4 && h.Op != 5 {
-							rest = append(rest, h)
-						}
-					}
-					if ok2, _ := linearizable(comp, rest); ok2 && len(rest) < len(lastHist) {
-						sig = "not-linearizable/eventsbuffer/lock-free-Total-or-IsBuffered-observes-a-push-in-progress"
-					}
-				}
+				sig := classify(comp, lastHist)
 				c.Violation(sig, replay{p, p.describe(cs), r.Choices}, "no sequential order of the calls (respecting non-overlapping calls) reproduces this concurrent history on the real %s run sequentially:\n  %s\n  program: %s\n  schedule: %v", comp.Name, key, p.describe(cs), r.Choices)
 				return false
 			}
